@@ -18,7 +18,7 @@ func init() {
 			Old: "\tsac, ok := hs.heightSubs[height]\n\tif !ok {\n\t\tsac = &sub{", New: "\ths.heightSubsLk.Unlock()\n\ths.heightSubsLk.Lock()\n\tsac, ok := hs.heightSubs[height]\n\tif !ok {\n\t\tsac = &sub{"},
 		Variant{Prop: "C12", Name: "select-while-locked", File: hs, Expect: "C12.b",
 			Old: "\tsac.count++\n\ths.heightSubsLk.Unlock()\n\n\tif stored != nil && stored() {\n\t\t// no need to keep the request, the header is there\n\t\ths.heightSubsLk.Lock()\n", New: "\tsac.count++\n\tdefer hs.heightSubsLk.Unlock()\n\n\tif stored != nil && stored() {\n\t\t// no need to keep the request, the header is there\n",
-			More: []Edit{{hs, "\t\t// no need to keep the request, if the op has canceled\n\t\ths.heightSubsLk.Lock()\n\t\ths.notify(height, false)\n\t\ths.heightSubsLk.Unlock()\n", "\t\ths.notify(height, false)\n"},
+			More: []Edit{{hs, "\t\ths.heightSubsLk.Lock()\n\t\tif curr, ok := hs.heightSubs[height]; ok && curr == sac {\n\t\t\ths.notify(height, false)\n\t\t}\n\t\ths.heightSubsLk.Unlock()\n\t\treturn ctx.Err()\n", "\t\tif curr, ok := hs.heightSubs[height]; ok && curr == sac {\n\t\t\ths.notify(height, false)\n\t\t}\n\t\treturn ctx.Err()\n"},
 				{hs, "\t\t\ths.notify(height, false)\n\t\t}\n\t\ths.heightSubsLk.Unlock()\n\t\treturn errElapsedHeight\n", "\t\t\ths.notify(height, false)\n\t\t}\n\t\treturn errElapsedHeight\n"}}},
 		Variant{Prop: "C12", Name: "context-case-removed", File: hs, Expect: "C12.b",
 			Old: "\tcase <-ctx.Done():\n\t\t// no need to keep the request, if the op has canceled", New: "\tcase <-make(chan struct{}):\n\t\t// no need to keep the request, if the op has canceled"},
